@@ -5,6 +5,7 @@ package storage
 import (
 	"encoding/hex"
 	sync "github.com/MixinNetwork/mixin/verifmc/vsync"
+	"os"
 
 	"github.com/MixinNetwork/mixin/common"
 	"github.com/MixinNetwork/mixin/config"
@@ -16,6 +17,11 @@ import (
 // This file is injected through the overlay (tag verif) and only ADDS helpers
 // used by the /verif harnesses of other packages; it is not part of /repo.
 
+var (
+	verifBaseOnce sync.Once
+	verifBaseOpts [2]badger.Options
+)
+
 // OpenForVerif opens a store. dir=="" gives two in-memory Badger DBs.
 func OpenForVerif(dir string) (*BadgerStore, error) {
 	custom := &config.Custom{}
@@ -23,18 +29,40 @@ func OpenForVerif(dir string) (*BadgerStore, error) {
 	if dir != "" {
 		return NewBadgerStore(custom, dir)
 	}
-	open := func() (*badger.DB, error) {
-		opts := badger.DefaultOptions("").WithInMemory(true)
+	// The in-memory databases take every semantic option (conflict detection,
+	// managed mode, value threshold, ...) from the options the repository's own
+	// openDB produces for a directory store, read once per process; only the
+	// location and the sizing differ. A change of openDB's options therefore
+	// reaches every harness store.
+	verifBaseOnce.Do(func() {
+		dir, err := os.MkdirTemp("", "verif-opts-")
+		if err != nil {
+			panic(err)
+		}
+		defer os.RemoveAll(dir)
+		st, err := NewBadgerStore(custom, dir)
+		if err != nil {
+			panic(err)
+		}
+		verifBaseOpts[0], verifBaseOpts[1] = st.snapshotsDB.Opts(), st.cacheDB.Opts()
+		if err := st.Close(); err != nil {
+			panic(err)
+		}
+	})
+	open := func(i int) (*badger.DB, error) {
+		opts := verifBaseOpts[i]
+		opts.Dir, opts.ValueDir = "", ""
+		opts = opts.WithInMemory(true).WithSyncWrites(false)
 		opts = opts.WithCompression(options.None).WithBlockCacheSize(0).WithIndexCacheSize(0)
 		opts = opts.WithMetricsEnabled(false).WithLoggingLevel(badger.ERROR)
 		opts = opts.WithNumCompactors(2).WithMemTableSize(8 << 20).WithNumMemtables(2)
 		return badger.Open(opts)
 	}
-	sdb, err := open()
+	sdb, err := open(0)
 	if err != nil {
 		return nil, err
 	}
-	cdb, err := open()
+	cdb, err := open(1)
 	if err != nil {
 		return nil, err
 	}
@@ -60,10 +88,14 @@ func dumpDB(db *badger.DB, prefix string) map[string]string {
 
 // VerifDump returns every key/value of the snapshot DB with the given prefix
 // ("" = everything), hex encoded.
-func (s *BadgerStore) VerifDump(prefix string) map[string]string { return dumpDB(s.snapshotsDB, prefix) }
+func (s *BadgerStore) VerifDump(prefix string) map[string]string {
+	return dumpDB(s.snapshotsDB, prefix)
+}
 
 // VerifDumpCache does the same for the cache DB.
-func (s *BadgerStore) VerifDumpCache(prefix string) map[string]string { return dumpDB(s.cacheDB, prefix) }
+func (s *BadgerStore) VerifDumpCache(prefix string) map[string]string {
+	return dumpDB(s.cacheDB, prefix)
+}
 
 // VerifSnapshotsDir is the directory of the snapshot DB (for the commit hook).
 func (s *BadgerStore) VerifSnapshotsDir() string { return s.snapshotsDB.Opts().Dir }
@@ -82,6 +114,18 @@ func (s *BadgerStore) VerifNextTopology() uint64 {
 // WriteTransaction + WriteSnapshot path. Lock the inputs first when
 // lock==true (ordinary admission path).
 func (s *BadgerStore) VerifFinalize(nodeId crypto.Hash, timestamp uint64, lock bool, txs ...*common.VersionedTransaction) (*common.SnapshotWithTopologicalOrder, error) {
+	topo, err := s.VerifPrepare(nodeId, timestamp, s.VerifNextTopology(), lock, txs...)
+	if err != nil {
+		return nil, err
+	}
+	return topo, s.WriteSnapshot(topo, []crypto.Hash{nodeId})
+}
+
+// VerifPrepare does everything VerifFinalize does except the final
+// WriteSnapshot: inputs locked (when lock), bodies stored, the snapshot built on
+// the node's head round with the given topological order. Concurrent harnesses
+// prepare sequentially and hand only the WriteSnapshot calls to their threads.
+func (s *BadgerStore) VerifPrepare(nodeId crypto.Hash, timestamp, order uint64, lock bool, txs ...*common.VersionedTransaction) (*common.SnapshotWithTopologicalOrder, error) {
 	head, err := s.ReadRound(nodeId)
 	if err != nil {
 		return nil, err
@@ -112,8 +156,7 @@ func (s *BadgerStore) VerifFinalize(nodeId crypto.Hash, timestamp uint64, lock b
 	}
 	snap.Hash = snap.PayloadHash()
 	snap.Signature = &crypto.CosiSignature{Mask: 1}
-	topo := &common.SnapshotWithTopologicalOrder{Snapshot: snap, TopologicalOrder: s.VerifNextTopology()}
-	return topo, s.WriteSnapshot(topo, []crypto.Hash{nodeId})
+	return &common.SnapshotWithTopologicalOrder{Snapshot: snap, TopologicalOrder: order}, nil
 }
 
 // VerifSnapshotOnly writes a finalized snapshot naming transactions that are
